@@ -88,6 +88,13 @@ def dstepTokens (d : DState) (ts : List String) : DState × String :=
      | _, _ => (d, "bad-op"))
   | ["reset"] => ({ w := (stepTokens2 d.w ["reset"]).1, hist := #[], flushed := [] }, "ok")
   | ["flush", s] =>
+    -- since the repair of F18: a writable file-backed store refuses to flush while one of its
+    -- collections has a name that JSON cannot carry (not valid UTF-8)
+    if (match s.toNat? with
+        | some sn => (match assocGet sn d.w.stores with
+          | some st => !st.readOnly && st.file.isSome && st.colls.any (fun c => !validUTF8 c.name)
+          | none => false)
+        | none => false) then (d, "err-name") else
     let (w', o) := stepTokens2 d.w ["flush", s]
     (match s.toNat?, o == "ok" with
      | some sn, true =>
